@@ -74,6 +74,9 @@ type TxSpec struct {
 	Fail              bool `json:"fail,omitempty"`   // the caller's function returns an error after its operations succeeded
 	Batch             bool `json:"batch,omitempty"`  // use Db.Batch instead of Db.Update
 	Nested            bool `json:"nested,omitempty"` // run the body through a second Db.Update on the already bound context
+	// LastInPreCommit: the last operation is not issued by the body itself but from a pre-commit action it registers
+	// (the application's "do this just before the commit" hook); a rejection there fails the commit
+	LastInPreCommit bool `json:"lastInPreCommit,omitempty"`
 }
 
 func (t TxSpec) String() string {
@@ -96,6 +99,9 @@ func (t TxSpec) String() string {
 	}
 	if t.Nested {
 		flags += " [nested Db.Update]"
+	}
+	if t.LastInPreCommit {
+		flags += " [last operation issued from a pre-commit action]"
 	}
 	return "tx{" + strings.Join(parts, "; ") + "}" + flags
 }
@@ -383,13 +389,13 @@ func RunTxHooks(w *World, m *Model, tx TxSpec, beforeTx func(ctx boltz.MutateCon
 		} else if tx.DeriveSystemFirst {
 			_ = ctx.GetSystemContext()
 		}
-		for _, op := range tx.Ops {
+		step := func(ctx boltz.MutateContext, op Op) error {
 			pre := trial.Clone()
 			causes := trial.Apply(op, tx.System)
 			if contains(causes, Unspecified) {
 				*trial = *pre
 				out.Skipped++
-				continue
+				return nil
 			}
 			res, err := w.Exec(ctx, op)
 			if v := CompareOutcome(op, causes, err); v != nil {
@@ -406,6 +412,18 @@ func RunTxHooks(w *World, m *Model, tx TxSpec, beforeTx func(ctx boltz.MutateCon
 			if v := checkLinkReturn(pre, trial, op, res); v != nil {
 				out.Violation = v
 				return errCallerAbort
+			}
+			return nil
+		}
+		for i, op := range tx.Ops {
+			if tx.LastInPreCommit && !tx.Batch && !tx.Fail && i == len(tx.Ops)-1 {
+				op := op
+				actx := ctx
+				ctx.AddPreCommitAction(func(boltz.MutateContext) error { return step(actx, op) })
+				continue
+			}
+			if err := step(ctx, op); err != nil {
+				return err
 			}
 		}
 		if tx.Fail {
